@@ -328,8 +328,14 @@ def c11_i5(ctx):
                     if v0 is not None and v0[0] == "place" and re.match(r"^\w+$", v0[1]) and not re.match(want, txt0):
                         # a local the id was put in (`let id = transaction.id();`)
                         ds0 = [sstr(x) for x in eb.var_defs(v0[1])]
-                        if len(ds0) == 1:
+                        if len(ds0) == 1 and ds0[0] != v0[1]:
                             txt0 = ds0[0]
+                        else:
+                            # ... captured from the spawning function, where it was taken from the transaction
+                            ebp = ExprBuilder(ctx.prog, f)
+                            dsp = [sstr(x) for x in ebp.var_defs(v0[1])]
+                            if len(dsp) == 1:
+                                txt0 = dsp[0].replace("&", "")
                     oks.append(txt0)
             key = "%s:task-result" % fn_name
             if oks and all(re.match(want, x) for x in oks):
